@@ -13,8 +13,10 @@ pub struct Regex {
 impl Regex {
     pub fn new(re: &str, case_insensitive: bool) -> Result<Regex, regex::Error> {
         assert!(re.starts_with('^'));
+        // file names may contain newline characters, so `.` must match them as well
         let regex = regex::RegexBuilder::new(re)
             .case_insensitive(case_insensitive)
+            .dot_matches_new_line(true)
             .build()?;
         let fixed_prefix = if case_insensitive {
             Self::get_fixed_prefix(re).to_lowercase()
